@@ -304,6 +304,52 @@ class SInt:
     def __divmod__(self, o):
         return (self // o, self % o)
 
+    # bit operations with a constant (non-negative values: bytes, lengths)
+    def _nonneg(self):
+        if not cur().must(mk_bool(self.t >= 0)):
+            raise Unsupported('bit operation on a symbolic integer that may be negative')
+
+    def __and__(self, m):
+        if isinstance(m, bool) or not isinstance(m, int) or m < 0:
+            raise Unsupported('bit-and of a symbolic integer with %r' % (m,))
+        self._nonneg()
+        out = 0
+        k = 0
+        while (m >> k):
+            if (m >> k) & 1:
+                # run of consecutive one bits [k, j)
+                j = k
+                while (m >> j) & 1:
+                    j += 1
+                out = out + ((self // (1 << k)) % (1 << (j - k))) * (1 << k)
+                k = j
+            else:
+                k += 1
+        return out
+    __rand__ = __and__
+
+    def __rshift__(self, k):
+        if isinstance(k, int) and k >= 0:
+            return self // (1 << k)
+        raise Unsupported('shift by a symbolic amount')
+
+    def __lshift__(self, k):
+        if isinstance(k, int) and k >= 0:
+            return self * (1 << k)
+        raise Unsupported('shift by a symbolic amount')
+
+    def __or__(self, m):
+        if isinstance(m, bool) or not isinstance(m, int) or m < 0:
+            raise Unsupported('bit-or of a symbolic integer with %r' % (m,))
+        return self + m - (self & m)
+    __ror__ = __or__
+
+    def __xor__(self, m):
+        if isinstance(m, bool) or not isinstance(m, int) or m < 0:
+            raise Unsupported('bit-xor of a symbolic integer with %r' % (m,))
+        return (self | m) - (self & m)
+    __rxor__ = __xor__
+
     def __truediv__(self, o):
         # true division gives a float: kept as an unevaluated quotient; only int() of it is modelled (see models.sh_int)
         return SQuot(self, self._posconst(o))
